@@ -21,6 +21,8 @@
    (noTouchAllowed) for a security-key signature with flags fl. *)
 EXTENDS Integers, Sequences, FiniteSets, TLC
 
+CONSTANT FixSign  \* TRUE: multiAlgorithmSigner.Sign goes through SignWithAlgorithm with the key format's algorithm (the code
+                  \* since fix bd7db8b, finding C40-M1); FALSE: the promoted Sign of the embedded signer (documentation only, SSHSig_DocSign.cfg)
 CONSTANT Menus    \* set of menus; see SSHSig_MC
 
 KeyTypes == {"ssh-rsa", "ssh-dss", "ecdsa-sha2-nistp256", "ecdsa-sha2-nistp384", "ecdsa-sha2-nistp521", "ssh-ed25519",
@@ -83,8 +85,9 @@ SeqSet(s) == {s[i] : i \in 1..Len(s)}
 (* multiAlgorithmSigner.SignWithAlgorithm *)
 MultiSign(kt, list, alg) == LET a == IF alg = "" THEN kt ELSE alg IN
                             IF a \in SeqSet(list) THEN BaseSign(kt, alg) ELSE [ok |-> FALSE, fmt |-> "-"]
-(* multiAlgorithmSigner.Sign: not overridden, the embedded signer's Sign runs *)
-MultiSignPlain(kt, list) == BaseSign(kt, "")
+(* multiAlgorithmSigner.Sign: SignWithAlgorithm(underlyingAlgo(key type)); before fix bd7db8b the method was not
+   overridden and the embedded signer's Sign ran, whatever the list *)
+MultiSignPlain(kt, list) == IF FixSign THEN MultiSign(kt, list, kt) ELSE BaseSign(kt, "")
 
 SignerD(y) ==
   IF ~Restrict(y.kt, Allowed(y.kt), y.l1) THEN [new |-> FALSE, ok |-> FALSE, fmt |-> "-", algs |-> <<>>]
@@ -159,8 +162,8 @@ PresenceRule == (Done /\ part = 1 /\ v.tv \in SKTypes /\ res.acc) => (UP(v.flp) 
 RefusesOutsideList == (Done /\ part = 2 /\ mres.new /\ m.call = "SignWithAlgorithm" /\ mres.ok) =>
                         (mres.fmt \in SeqSet(mres.algs) /\ mres.fmt \in Allowed(m.kt))
 NeverWidens == (Done /\ part = 2 /\ mres.new) => SeqSet(mres.algs) \subseteq (Allowed(m.kt) \cap SeqSet(m.l1))
-(* the same for the plain Sign method -- NOT an invariant of the code: Sign is not overridden by
-   multiAlgorithmSigner (checked in SSHSig_DocSign.cfg, an expected counterexample) *)
+(* the same for the plain Sign method; with FixSign = FALSE this fails: the expected counterexample of SSHSig_DocSign.cfg
+   documents the repaired defect C40-M1 *)
 SignAlsoRefuses == (Done /\ part = 2 /\ mres.new /\ m.call = "Sign" /\ mres.ok) => mres.fmt \in SeqSet(mres.algs)
 
 (* C40, opt-out *)
